@@ -186,8 +186,10 @@ def cases(draw):
             if t["cls"] == "Function" and draw(st.booleans()):
                 k1 = draw(st.floats(-10, 10))
                 k2 = draw(st.one_of(st.floats(-10, 10), st.sampled_from([math.inf, 0.0, 1e-300])))
-                t["formula"] = f"k1 * {draw(st.sampled_from(inames))} + k2"
-                t["vars"] = {"k1": k1, "k2": k2}
+                extra = draw(st.lists(st.floats(-5, 5), min_size=0, max_size=6))  # up to 8 substitution variables
+                t["formula"] = f"k1 * {draw(st.sampled_from(inames))} + k2" + "".join(
+                    f" + e{i + 1}" for i in range(len(extra)))
+                t["vars"] = {"k1": k1, "k2": k2, **{f"e{i + 1}": v for i, v in enumerate(extra)}}
     rows = [draw(gen.input_row(spec)) for _ in range(draw(st.integers(1, 3)))]
     form = draw(st.sampled_from(["repr", "repr", "plain", "encapsulated", "encapsulated"]))
     return {"spec": spec, "d": d, "alias": draw(st.sampled_from(ALIASES)), "form": form,
